@@ -76,7 +76,10 @@ def run_tlc(c, workdir):
         hard = resource.getrlimit(resource.RLIMIT_AS)[1]
         resource.setrlimit(resource.RLIMIT_AS, (hard, hard))  # the JVM reserves a large address space
 
-    p = subprocess.run(cmd, cwd=workdir, stdout=subprocess.PIPE, stderr=subprocess.STDOUT, timeout=3000, preexec_fn=lift)
+    jtmp = os.path.join(workdir, "jtmp")  # the JVM's scratch files stay inside the work directory (removed with it), not in /tmp
+    os.makedirs(jtmp, exist_ok=True)
+    env = dict(os.environ, JAVA_TOOL_OPTIONS=(os.environ.get("JAVA_TOOL_OPTIONS", "") + " -Djava.io.tmpdir=" + jtmp).strip())
+    p = subprocess.run(cmd, cwd=workdir, stdout=subprocess.PIPE, stderr=subprocess.STDOUT, timeout=3000, preexec_fn=lift, env=env)
     out = p.stdout.decode("utf8", "replace")
     ok = "Model checking completed. No error has been found." in out
     m = re.search(r"(\d+) states generated, (\d+) distinct states found", out)
